@@ -16,6 +16,7 @@ from pbsym.ctx import B
 from pbsym.models.quiet import num
 
 PROPERTY = 'C09'
+TECHNIQUE = 'CrossHair/z3 symbolic execution over symbolic run histories on one recorder; probe runs compared with a fresh recorder'
 FUNCTIONS = ['playback/tape_recorder.py::TapeRecorder.start_recording',
              'playback/tape_recorder.py::TapeRecorder.discard_recording',
              'playback/tape_recorder.py::TapeRecorder.force_sample_recording',
